@@ -1144,6 +1144,24 @@ def partial_eq(ip, st, ci):
     return ("bool", c)
 
 
+@prim("Result::<T, E>::or", "Option::<T>::or")
+def result_or(ip, st, ci):
+    v, o = ci["args"]
+    if v[0] != "enum":
+        raise Undecided("or on %s" % v[0])
+    return v if v[3] in ("Ok", "Some") else o
+
+
+@prim("Result::<T, E>::or_else", "Option::<T>::or_else")
+def result_or_else(ip, st, ci):
+    v, clo = ci["args"]
+    if v[0] != "enum":
+        raise Undecided("or_else on %s" % v[0])
+    if v[3] in ("Ok", "Some"):
+        return v
+    return _call_closure(ip, st, ci, clo, list(v[4]) if v[3] == "Err" else [])
+
+
 @prim("Option::<T>::take")
 def option_take(ip, st, ci):
     a = tg_of(ci["args"][0])
